@@ -331,6 +331,7 @@ func (ft *FakeTarget) serveConn(c *Conn) {
 		var head bytes.Buffer
 		fmt.Fprintf(&head, "HTTP/1.1 %d %s\r\n", d.Status, http.StatusText(d.Status))
 		fmt.Fprintf(&head, "X-Served-By: %s\r\n", addr)
+		fmt.Fprintf(&head, "X-Seen-Uri: %s\r\n", req.RequestURI)
 		hasCT := false
 		for _, h := range d.Headers {
 			fmt.Fprintf(&head, "%s: %s\r\n", h[0], h[1])
